@@ -17,7 +17,7 @@ from collections import defaultdict
 
 
 class Node:
-    __slots__ = ("id", "kind", "ast", "label", "succ", "pred", "polarity", "test")
+    __slots__ = ("id", "kind", "ast", "label", "succ", "pred", "polarity", "test", "normal_preds")
 
     def __init__(self, id, kind, astnode=None, label=""):
         self.id = id
@@ -259,6 +259,7 @@ class CFG:
             self._finally_stack.pop()
             for o in outs:
                 self._edge(o, fin_entry)
+            fin_entry.normal_preds = {o.id for o in outs}  # the other predecessors are exception / return edges
             fouts = self._block(st.finalbody, [fin_entry])
             # after finally: fall through, or continue an exception / pending return
             for fo in fouts:
